@@ -123,6 +123,14 @@ def collect():
                     out[f'{fmod.__name__}:{cname}'] = ctext
                     for c2, f2 in sorted(_called(cnode, fmod).items()):
                         out.setdefault(f'{fmod.__name__}:{c2}', _callable_text(f2)[0])
+    # the SDP data element parser and serialiser themselves (their control flow carries the nesting
+    # counter; Model/CodecsSdp.v and Model/CodecsSdpState.v were written from these texts)
+    from bumble import sdp
+    for key, fn in (('bumble.sdp:DataElementParser._list_from_bytes', sdp.DataElementParser._list_from_bytes),
+                    ('bumble.sdp:DataElementParser.parse_next', sdp.DataElementParser.parse_next),
+                    ('bumble.sdp:DataElementParser.__init__', sdp.DataElementParser.__init__),
+                    ('bumble.sdp:DataElement.__bytes__', sdp.DataElement.__bytes__)):
+        out[key] = _callable_text(fn)[0]
     return dict(sorted(out.items()))
 
 
